@@ -557,8 +557,107 @@ func ctxCancelled() {
 	fx.Settle()
 	vrt.Observe("A=%v B=%v", a.got, b.got)
 }
+// twoObjects: the same signal of two objects of one service is followed
+// through one connection; each subscription stands on its own.
+func twoObjects() {
+	collected = nil
+	w := fx.Start(bus.Yes{})
+	c1 := w.MustConnect()
+	childProxy, err := c1.Probe(1).Spawn()
+	if err != nil {
+		vrt.Failf("harness/spawn", "%v", err)
+		return
+	}
+	childID := childProxy.Proxy().ObjectID()
+	child := w.Root.Children[0]
+	pR, pC := c1.Probe(1), c1.Probe(childID)
+	childFirst := vrt.ChooseFree(2, "child subscribes first") == 1
+	vrt.Explore()
+	type win struct {
+		got    []int32
+		closed bool
+		cancel func()
+	}
+	sub := func(name string, p probe.ProbeProxy) *win {
+		x := &win{}
+		cancel, ch, err := p.SubscribeTick()
+		if err != nil {
+			failf("subscribe-failed/"+name, "SubscribeTick failed: %v", err)
+			return x
+		}
+		x.cancel = cancel
+		vrt.GoNamed("drain-"+name, func() {
+			for v := range ch {
+				x.got = append(x.got, v)
+			}
+			x.closed = true
+		})
+		return x
+	}
+	emit := func(r, c int32) {
+		if err := w.Root.Helper.SignalTick(r); err != nil {
+			failf("emit-error", "root tick(%d): %v", r, err)
+		}
+		if err := child.Helper.SignalTick(c); err != nil {
+			failf("emit-error", "child tick(%d): %v", c, err)
+		}
+		vrt.Quiesce()
+	}
+	var r1, c1w *win
+	if childFirst {
+		c1w = sub("child", pC)
+		vrt.Quiesce()
+		r1 = sub("root", pR)
+	} else {
+		r1 = sub("root", pR)
+		vrt.Quiesce()
+		c1w = sub("child", pC)
+	}
+	vrt.Quiesce()
+	emit(1, 101)
+	if r1.cancel != nil {
+		r1.cancel()
+	}
+	vrt.Quiesce()
+	emit(2, 102)
+	r2 := sub("root-again", pR)
+	vrt.Quiesce()
+	emit(3, 103)
+	if c1w.cancel != nil {
+		c1w.cancel()
+	}
+	vrt.Quiesce()
+	emit(4, 104)
+	if r2.cancel != nil {
+		r2.cancel()
+	}
+	vrt.Quiesce()
+	emit(5, 105)
+	want := map[string][]int32{"root": {1}, "child": {101, 102, 103}, "root-again": {3, 4}}
+	for name, x := range map[string]*win{"root": r1, "child": c1w, "root-again": r2} {
+		if x.cancel == nil {
+			continue
+		}
+		if fmt.Sprint(x.got) != fmt.Sprint(want[name]) {
+			clause := "two-objects/events-differ/"
+			if len(x.got) > len(want[name]) {
+				clause = "two-objects/event-duplicated-or-foreign/"
+			}
+			failf(clause+name, "subscriber %s (child first: %v) received %v; the events of its object while it was subscribed are %v", name, childFirst, x.got, want[name])
+		}
+		if !x.closed {
+			failf("channel-not-closed/"+name, "the channel of %s is still open after its cancellation", name)
+		}
+	}
+	checkTap("conn1", c1)
+	flush()
+	fx.Settle()
+	vrt.Observe("childFirst=%v root=%v child=%v again=%v", childFirst, r1.got, c1w.got, r2.got)
+}
 
 func init() {
+	reg.Register(&reg.Scenario{Property: "C13", Name: "two-objects-one-connection", Body: twoObjects, Quick: 0, Thorough: 1,
+		Doc: "the tick signal of the service object and of a second object of the same service, both followed through one connection: subscribe both, cancel one, subscribe it again, cancel the other; each receives exactly its own object's events"})
 	reg.Register(&reg.Scenario{Property: "C13", Name: "cancel-with-done-context", Body: ctxCancelled, Quick: 0, Thorough: 1,
 		Doc: "A subscribes through Proxy.WithContext(ctx); ctx is cancelled, then A cancels its subscription (the unregistration call fails): A's channel is closed and silent, B on another connection gets every event"})
 	reg.Register(&reg.Scenario{Property: "C13", Name: "histories-same-client", Body: histories(true), Quick: 0, Thorough: 1,
